@@ -59,7 +59,9 @@ THEOREMS = [
         "rbDamp_den frfRb_damped_solves frfRb_damped_reduces frfRbD_zero_freq frfRb_zero_freq_unsolvable "
         "rbDamp_den_ne_zero_real rbDampRows_correct damped_rb_instances rbAccD_length "
         # Props/C02j: SolveUnc = FreqDirect at full size (uncoupled), the full-size equation for every option value
-        "partStiff_unc_su_eq_fd colSU_eq_colFD_unc colSU_solves_options"
+        "partStiff_unc_su_eq_fd colSU_eq_colFD_unc colSU_solves_options "
+        # W = 0 at full size, and the lemmas factored out for it
+        "fsolve_full_rows rbAccD_solves rbBlock_zero_freq elValsSU_solves colSU_zero_freq"
     ).split()
 ]
 TRUSTED = [
@@ -127,10 +129,11 @@ PARTIAL = (
     "relations of frfCoupled_solves: A U = U Lambda in partitioned form and the U^-1 partitions; residuals measured per "
     "case, not proved); for W != 0 the full-size equation is proved for every incrb / rf_disp_only value for SolveUnc "
     "(colSU_solves_options) but for FreqDirect only for incrb = 'dva', rf_disp_only = False (colFD_solves), its other "
-    "option values being related to that column entry by entry (colFD_options); W = 0 has no full-size theorem: it is "
-    "covered row-wise (frfRbD_zero_freq: d = v = 0, a = f/m on a rigid-body row with any damping - the documented "
-    "convention, which is not a solution of the equation: frfRb_zero_freq_unsolvable) and through colSU_options / "
-    "colFD_options, which hold for every W; SolveUnc = FreqDirect at full size is proved for uncoupled systems "
+    "option values being related to that column entry by entry (colFD_options); at W = 0 the full-size statement for "
+    "SolveUnc (colSU_zero_freq: static equation and v = a = 0 on the elastic and residual-flexibility rows, d = v = 0 "
+    "and M a = F on the rigid-body rows with any damping - the documented convention, which is not a solution of the "
+    "equation there: frfRb_zero_freq_unsolvable) is for incrb = 'dva', rf_disp_only = False, the other option values "
+    "at W = 0 following entry by entry from colSU_options (which holds for every W); SolveUnc = FreqDirect at full size is proved for uncoupled systems "
     "(colSU_eq_colFD_unc, damped rigid-body modes included) and for coupled systems only for the elastic block "
     "(direct_eq_modal_gauss); nothing is claimed for a user-given rb on a coupled system with damping on those modes "
     "(the model, like the source, solves them without it: ColEnv.rbDamping; tied only); the pre_eig path rests on the "
@@ -163,7 +166,9 @@ MANIFEST = {
     "the constructor state through the block solves to the returned column of SolveUnc.fsolve / FreqDirect.fsolve; for "
     "uncoupled systems the two full-size matrices coincide, hence the two columns (colSU_eq_colFD_unc); "
     "colSU_solves_options states the full-size equation and the v, a relations directly for every incrb subset and "
-    "both rf_disp_only values; colSU_options / "
+    "both rf_disp_only values; colSU_zero_freq is the whole column at W = 0 (static equation on the elastic and "
+    "residual-flexibility rows, d = v = 0 and M[rb,rb] a = F[rb] on the rigid-body rows whatever their damping); "
+    "colSU_options / "
     "colFD_options show that for every incrb subset, both rf_disp_only values and every W the returned column is "
     "that column with exactly the excluded letters cleared on the rigid-body rows and v, a cleared on the "
     "residual-flexibility rows iff rf_disp_only. solvepsd: response PSD "
